@@ -36,6 +36,8 @@ MEMO = {"cache", "lru_cache", "cached_property", "memoize", "memoized"}
 PACKAGES = ("suit_generator", "ncs", "build_configuration")
 IMMUTABLE_CTORS = {"tuple", "frozenset", "str", "int", "bytes", "float", "bool", "complex", "pathlib.Path", "pathlib.PurePath", "range",
                    "os.path.join", "os.path.abspath", "os.path.dirname", "uuid.UUID", "re.compile", "object"}
+STATELESS_FACTORIES = {"logging.getLogger", "re.compile", "pathlib.Path", "pathlib.PurePath", "frozenset", "tuple", "collections.namedtuple",
+                       "typing.TypeVar", "typing.NewType", "object", "str", "int", "bytes", "uuid.UUID", "struct.Struct"}
 READONLY_METHODS = {"get", "items", "keys", "values", "copy", "index", "count", "startswith", "endswith", "hex", "decode", "encode", "join",
                     "lower", "upper", "strip", "split", "format", "is_file", "exists", "read_text", "read_bytes", "tobinstr", "minaddr", "maxaddr"}
 
@@ -327,6 +329,24 @@ def shared_state(ctx):
                     r = repo.resolve_name(f.module, a0.id)
                     if (r and r[0] == "class") or a0.id == "cls":
                         bad.append((n, f"setattr on a class: {ast.unparse(n)[:60]}"))
+        # objects constructed at import (parser = ConfigParser(), cache = SomeClass()): one instance for the whole process; a method call
+        # on it from a function may carry state from one call to the next (loggers, compiled patterns and paths are stateless)
+        for n in walk_no_nested(f.node):
+            if isinstance(n, ast.Call) and isinstance(n.func, ast.Attribute) and isinstance(n.func.value, ast.Name):
+                nm = n.func.value.id
+                if _is_local(f, nm) or nm in {a.arg for a in f.node.args.args} or nm in ("self", "cls"):
+                    continue
+                home = f.module
+                rr = repo.resolve_name(f.module, nm)
+                init = home.assigns.get(nm)
+                if init is None and rr and rr[0] == "const" and len(rr) > 2 and hasattr(rr[2], "assigns"):
+                    init = rr[2].assigns.get(nm)
+                if isinstance(init, ast.Call):
+                    cr = repo.resolve_expr(home, init.func)
+                    cname = cr[1] if cr and cr[0] in ("ext", "builtin") else (cr[1].name if cr and cr[0] == "class" else ast.unparse(init.func))
+                    if cname in STATELESS_FACTORIES or str(cname).startswith(("os.path.", "pathlib.")) or n.func.attr in READONLY_METHODS:
+                        continue
+                    bad.append((n, f"method call on {nm}, an object created at import by {cname}(): state shared by every call ({ast.unparse(n)[:50]})"))
         # aliases of shared containers: a name bound to a class-level / module-level container (depth 0: the object itself; depth 1: a
         # shallow copy - {**X}, dict(X), X.copy(), list(X), X | y - whose inner containers are still the shared ones)
         shared_names = set(cls_containers)
